@@ -313,34 +313,14 @@ void h_tables_ranges(void)
   VERIF_CANARY();
 }
 
-/* Exact-size input block for the bounded targets.  Same meaning as IN_MEM
- * (a heap block of exactly `len` octets with arbitrary content), but the
- * block is allocated with a CONSTANT size in each case of a case split over
- * len <= 24: reads of a block of symbolic size cost the solver array
- * constraints that grow with the square of the number of reads, and the
- * bounded targets read the input hundreds of times. */
-#if VERIF_IS_NATIVE
-#define SX_IN_MEM_SMALL(name, len) IN_MEM(name, len)
-#else
-#define SX_AC_(name, len, k) if ((len) == (k)) name = malloc(k);
-#ifdef VERIF_TRACE
-#define SX_IN_MEM_WITNESS(name, len) \
-  VERIF_W(name,len,0) VERIF_W(name,len,1) VERIF_W(name,len,2) VERIF_W(name,len,3) \
-  VERIF_W(name,len,4) VERIF_W(name,len,5) VERIF_W(name,len,6) VERIF_W(name,len,7) \
-  VERIF_W(name,len,8) VERIF_W(name,len,9) VERIF_W(name,len,10) VERIF_W(name,len,11) \
-  VERIF_W(name,len,12) VERIF_W(name,len,13) VERIF_W(name,len,14) VERIF_W(name,len,15)
-#else
-#define SX_IN_MEM_WITNESS(name, len)
-#endif
-#define SX_IN_MEM_SMALL(name, len) \
-  unsigned char *name = NULL; ASSUME((len) <= 24); \
-  SX_AC_(name,len,0) SX_AC_(name,len,1) SX_AC_(name,len,2) SX_AC_(name,len,3) SX_AC_(name,len,4) \
-  SX_AC_(name,len,5) SX_AC_(name,len,6) SX_AC_(name,len,7) SX_AC_(name,len,8) SX_AC_(name,len,9) \
-  SX_AC_(name,len,10) SX_AC_(name,len,11) SX_AC_(name,len,12) SX_AC_(name,len,13) SX_AC_(name,len,14) \
-  SX_AC_(name,len,15) SX_AC_(name,len,16) SX_AC_(name,len,17) SX_AC_(name,len,18) SX_AC_(name,len,19) \
-  SX_AC_(name,len,20) SX_AC_(name,len,21) SX_AC_(name,len,22) SX_AC_(name,len,23) SX_AC_(name,len,24) \
-  ASSUME(name != NULL); SX_IN_MEM_WITNESS(name, len)
-#endif
+/* The reference side of the bounded targets reads a COPY of the input in a
+ * small fixed-size array (cells of a constant-size array are plain variables
+ * for the solver; every read of the exact-size input block, whose size is
+ * symbolic, costs array constraints against every other read of it). */
+#define SX_COPY_INPUT(cp, s, n, max) \
+  char cp[(max) + 1]; \
+  for (size_t k_ = 0; k_ < (max); k_++) cp[k_] = (k_ < (n)) ? (s)[k_] : '\0'; \
+  cp[max] = '\0';
 
 /* tables that satisfy every equation exist for every input: the ones computed
  * from the text (the same routine that the native replay uses) do */
@@ -348,7 +328,7 @@ void h_tables_exist(void)
 {
   IN(size_t, in_n)
   ASSUME(in_n <= SX_QMAX);
-  SX_IN_MEM_SMALL(in_s, in_n)
+  IN_MEM(in_s, in_n)
   const char *s = (const char *)in_s;
   sx_tables(s, in_n);
 #if !VERIF_IS_NATIVE
@@ -371,7 +351,7 @@ static void sx_integer_value(int hex)
   const size_t off = hex ? 2u : 0u;
   IN(size_t, in_n)
   ASSUME(in_n > off && in_n <= SX_VDIGITS + off);
-  SX_IN_MEM_SMALL(in_s, in_n)
+  IN_MEM(in_s, in_n)
   const char *s = (const char *)in_s;
   if (hex) { ASSUME(s[0] == '#' && s[1] == 'x' && SPEC_SX_ISXDIGIT(s[2])); }
   else { ASSUME(SPEC_SX_ISDIGIT(s[0])); }
@@ -489,18 +469,19 @@ static void sx_whole(int nul_terminated)
 {
   IN(size_t, in_n)
   ASSUME(in_n <= SX_BN);
-  SX_IN_MEM_SMALL(in_s, in_n + (nul_terminated ? 1u : 0u))
+  IN_MEM(in_s, in_n + (nul_terminated ? 1u : 0u))
   const char *s = (const char *)in_s;
   for (size_t k = 0; k < SX_BN; k++)
     if (k < in_n) ASSUME(SX_ALPHABET_OK(s[k]));
   if (nul_terminated) in_s[in_n] = '\0';
+  SX_COPY_INPUT(cp, s, in_n, SX_BN)
   const size_t base = g_sx_live;
 
   struct sx_parse_result r = nul_terminated ? sx_parse_string(s) : sx_parse_stringn(s, in_n);
 
   size_t end = 0;
   const int cmp = (r.status == SXS_SUCCESS && r.node != NULL);
-  const int ref = ref_expr(s, in_n, 0, &end, r.node, cmp);
+  const int ref = ref_expr(cp, in_n, 0, &end, r.node, cmp);
   if (ref == 0) {
     CHECK(r.status != SXS_SUCCESS && r.status != SXS_FOUND_LIST, "no complete expression => error status");
     CHECK(r.node == NULL, "error => no tree returned");
@@ -526,14 +507,15 @@ void h_tables_vs_reference(void)
 {
   IN(size_t, in_n) IN(size_t, in_i)
   ASSUME(in_n <= SX_BN && in_i <= in_n);
-  SX_IN_MEM_SMALL(in_s, in_n)
+  IN_MEM(in_s, in_n)
   const char *s = (const char *)in_s;
   for (size_t k = 0; k < SX_BN; k++)
     if (k < in_n) ASSUME(SX_ALPHABET_OK(s[k]));
   SX_TABLES(in_s, in_n, 2)
   ASSUME(g_sx_tabs == 2);
+  SX_COPY_INPUT(cp, s, in_n, SX_BN)
   size_t end = 0;
-  const int ref = ref_expr(s, in_n, in_i, &end, NULL, 0);
+  const int ref = ref_expr(cp, in_n, in_i, &end, NULL, 0);
   CHECK((ref != 0) == (g_sxE[in_i] <= in_n), "E[i] is valid exactly when the reference reader finds an expression at i");
   CHECK(IMPLIES(ref != 0, g_sxE[in_i] == end), "E[i] is where the reference reader's expression ends");
   VERIF_CANARY();
